@@ -118,8 +118,8 @@ class ByteArray(SimpleModel):
 
     @classmethod
     def from_base64(cls, value):
-        joiner = type(value)()
         try:
+            joiner = type(value)()
             return (b64decode(joiner.join(value)),)
         except (TypeError, ValueError, AttributeError):
             # binascii.Error, which is what invalid base64 data raises on
